@@ -32,12 +32,13 @@ type vMonitor struct {
 	beforeHolds []vHoldSnap
 	headAdm     map[int]bool    // per key: was an admissible head already queued at the previous quiescent moment
 	opTimeouts  map[int]bool    // keys on which a waiter was answered TIMEOUT during the current op
+	opExpiries  map[int]bool    // keys on which a hold ended with EXPRIED during the current op
 	updatedKeys map[string]bool // key/lockId pairs whose terms were changed by a re-lock or update (looser upper bound)
 	ledger      map[int]map[int]int // per key: LockId → depth, kept from the REPLIES alone (not from the engine's records)
 }
 
 func vNewMonitor(out *vOut, x *vRun) *vMonitor {
-	return &vMonitor{out: out, x: x, reqs: map[int]*vReqInfo{}, seen: map[string]bool{}, updatedKeys: map[string]bool{}, ledger: map[int]map[int]int{}, headAdm: map[int]bool{}, opTimeouts: map[int]bool{}}
+	return &vMonitor{out: out, x: x, reqs: map[int]*vReqInfo{}, seen: map[string]bool{}, updatedKeys: map[string]bool{}, ledger: map[int]map[int]int{}, headAdm: map[int]bool{}, opTimeouts: map[int]bool{}, opExpiries: map[int]bool{}}
 }
 
 // report defers emission until the whole op line is known (it is the replay).
@@ -71,6 +72,7 @@ func (m *vMonitor) before(x *vRun, o vOp) {
 		m.beforeHolds = m.x.v.keySnap(o.key).holds
 	}
 	m.opTimeouts = map[int]bool{}
+	m.opExpiries = map[int]bool{}
 }
 
 func (m *vMonitor) keyState(key int) string {
@@ -281,6 +283,9 @@ func (m *vMonitor) onReply(r vReply) {
 	}
 	// ---- C06: an EXPRIED notice
 	if r.result == protocol_RESULT_EXPRIED {
+		if m.opExpiries != nil {
+			m.opExpiries[r.key] = true
+		}
 		if !ri.setsTerms {
 			m.report("C03:expried-wrong-request", fmt.Sprintf("EXPRIED notice %v under a RequestId that never set a hold's terms", r))
 		} else {
@@ -497,6 +502,10 @@ func (m *vMonitor) after(x *vRun, o vOp, ob string) {
 					// what made it admissible in THIS operation?
 					cause := "other"
 					switch {
+					case o.kind == 'T' && m.opExpiries[key]:
+						cause = "hold-expired"
+						// C06: when a hold ends by expiry its capacity is freed and queued requests are served exactly as after an unlock
+						m.report("C06:queued-not-served-after-expiry", fmt.Sprintf("a hold of key %d ended with EXPRIED in this tick; the key is quiescent with locked=%d, holds=%v, and the head queued request %d (Count %d) is admissible but still queued", key, ks.locked, ks.holds, rq, ri.op.count))
 					case o.kind == 'T' && m.opTimeouts[key]:
 						cause = "waiter-timed-out"
 					case o.kind == 'U' && o.key == key && o.flag&2 != 0 && len(m.reqs[o.req].terminal) == 1 && m.reqs[o.req].terminal[0].result == protocol_RESULT_LOCKED_ERROR:
